@@ -345,6 +345,39 @@ theorem def_type_index_partial (isVariadic : Bool) (numIn off i : Nat) (hv : isV
 theorem def_type_index_witness :
     defTypeIndexY E true 2 0 1 = (1, false) ∧ typeIndexSpec true 2 0 1 = (1, true) := by decide
 
+/-- **The type a constant argument is converted to, with `...`** (`hp.F(6, nil...)`: the argument followed by an ellipsis is the
+    variadic parameter itself; repair 0b75d2f of F07-16): for every arity, receiver offset and position Go's typing allows
+    (with `...` the call has exactly one argument per parameter), the type callBin picks is Go's — the parameter's own type,
+    the slice type for the last one; without `...` the statement is `arg_type_index_correct`. -/
+theorem arg_type_index_correct_ellipsis (isVariadic ellipsis : Bool) (numIn off i : Nat) (hv : isVariadic = true → numIn ≥ 1)
+    (he : ellipsis = true → isVariadic = true ∧ i + off + 1 ≤ numIn) :
+    argTypeIndexEY E isVariadic ellipsis numIn off i = typeIndexSpecE isVariadic ellipsis numIn off i := by
+  have hs : E.argTypeSpreadArm = true := rfl
+  cases ellipsis with
+  | false => simp [argTypeIndexEY, typeIndexSpecE, arg_type_index_correct isVariadic numIn off i hv]
+  | true =>
+    obtain ⟨hvar, hle⟩ := he rfl
+    subst hvar
+    have hn := hv rfl
+    simp only [argTypeIndexEY, typeIndexSpecE, hs, variadicIdx_E, if_true, Bool.true_and]
+    by_cases hlast : i + off + 1 = numIn
+    · have h1 : decide ((numIn : Int) - 1 ≥ 0) = true := by simp; omega
+      have h2 : decide ((i : Int) + (off : Int) = (numIn : Int) - 1) = true := by simp; omega
+      have h3 : ((numIn : Int) - 1).toNat = i + off := by omega
+      have h4 : ¬ ((numIn : Int) < 1) := by omega
+      simp [h2, h3, h4]
+    · have h2 : decide ((i : Int) + (off : Int) = (numIn : Int) - 1) = false := by simp; omega
+      simp only [h2, Bool.and_false, Bool.false_eq_true, if_false]
+      rw [arg_type_index_correct true numIn off i hv]
+      have : ¬ (i + off + 1 ≥ numIn) := by omega
+      simp [typeIndexSpec, this]
+
+/-- regression F07-16 — `hp.F(6, nil...)` with `F(a int, rest ...int)`: without the spread arm the literal was converted to the
+    ELEMENT type (reflect then refused it, or the type checker crashed before); with it, to `[]int` -/
+theorem spread_literal_regression :
+    argTypeIndexEY { E with argTypeSpreadArm := false } true true 2 0 1 = (1, true) ∧
+    argTypeIndexEY E true true 2 0 1 = (1, false) ∧ typeIndexSpecE true true 2 0 1 = (1, false) := by decide
+
 /-! ### variadic packing -/
 
 theorem drop_isEmpty_false (args : List Rep) (n : Nat) (h : args.length > n) : (args.drop n).isEmpty = false := by
@@ -522,6 +555,52 @@ theorem variadic_pack_ellipsis (fixed : List (Rep × Bool)) (s : Rep) :
 theorem variadic_pack_same_type_witness (xs : RepL) :
     packCallY 0 [(.tuple xs, true)] = [.tuple xs] := rfl
 
+/-! ### `call` with a host function as function value: the arguments -/
+
+/-- **A call with `...` prepares its other arguments** (`callArgArms`, regenerated; repair 449969c of F07-17): for every
+    parameter class and every frame value, an argument that is not the spread slice is prepared exactly as in a call without
+    ellipsis, and the slice followed by `...` is passed as it is. -/
+theorem call_fixed_args_ignore_ellipsis (ellipsis : Bool) (p : CallParam) (r : Rep) :
+    callPrepareY E.callArgArms ellipsis false p r = callPrepareY E.callArgArms false false p r ∧
+    callPrepareY E.callArgArms true true p r = r := by
+  cases ellipsis <;> cases p <;> (try rename_i m; cases m) <;> exact ⟨rfl, rfl⟩
+
+/-- a function argument (nil, a function declared by the script — a `*node` in the frame —, a closure, a host function) for a
+    function parameter of a host function reached through `call` (`var fv func(func() int, ...int) int = hp.F; fv(cb, xs...)`):
+    the host receives something it can call, standing for the same function, with and without `...` -/
+theorem call_argprep_func (ellipsis : Bool) (s : ArgSit)
+    (hs : s = .fnNil ∨ (∃ id, s = .fnDecl id) ∨ (∃ id, s = .fnClosure id) ∨ (∃ id, s = .fnHost id)) :
+    let h := callPrepareY E.callArgArms ellipsis false .func s.rep
+    hostAssignable .concrete h = true ∧ hostClean h = true ∧ datum h = datum s.rep := by
+  rw [(call_fixed_args_ignore_ellipsis ellipsis .func s.rep).1]
+  rcases hs with h | ⟨id, h⟩ | ⟨id, h⟩ | ⟨id, h⟩ <;> subst h <;> exact ⟨rfl, rfl, rfl⟩
+
+/-- a value written for a host-interface parameter: an interpreted value gets its `_Iface` wrapper, a host value goes as it is -/
+theorem call_argprep_host_iface (ellipsis : Bool) (d : Dyn) :
+    let h := callPrepareY E.callArgArms ellipsis false .hostIface (.dyn d)
+    hostAssignable .hostIface h = true ∧ hostClean h = true ∧ datum h = .dyn d := by
+  rw [(call_fixed_args_ignore_ellipsis ellipsis .hostIface (.dyn d)).1]
+  cases hi : d.interp <;>
+    simp [callPrepareY, firstCallArm, E, Expected.C07.facts, CAGuard.holds, genInterfaceWrapperY, stripVi, hostAssignable, hostClean, datum, hi]
+
+theorem call_argprep_generated (ellipsis : Bool) (p : CallParam) (r : Rep) :
+    callPrepareY Generated.C07.facts.callArgArms ellipsis false p r = callPrepareY Generated.C07.facts.callArgArms false false p r := by
+  rw [facts_tie]; exact (call_fixed_args_ignore_ellipsis ellipsis p r).1
+
+/-- the arms before 449969c: `case hasVariadicArgs: genValue(c)` for every argument -/
+def preSpreadArms : List CallArgArm :=
+  [⟨.ellipsisCall, .raw⟩, ⟨.ifaceSrc, .boxIface⟩, ⟨.ifaceBin, .ifaceWrap⟩, ⟨.funcSrc, .funcValue⟩, ⟨.default, .raw⟩]
+
+/-- regression F07-17 — `fv(cb, xs...)`: the declared function reached the host as a `*node`, an interpreted value for a host
+    interface unwrapped; without `...` both were prepared -/
+theorem spread_via_func_value_regression :
+    hostClean (callPrepareY preSpreadArms true false .func (.node 1)) = false ∧
+    hostAssignable .hostIface (callPrepareY preSpreadArms true false .hostIface (.dyn interpStringer)) = false ∧
+    callPrepareY preSpreadArms false false .func (.node 1) = .mkfunc 1 false ∧
+    callPrepareY E.callArgArms true false .func (.node 1) = .mkfunc 1 false ∧
+    callPrepareY E.callArgArms true false .hostIface (.dyn interpStringer) = .iwrap (.dyn interpStringer) :=
+  ⟨rfl, rfl, rfl, rfl, rfl⟩
+
 /-! ### result routing -/
 
 /-- **Result routing**: for every context (multi-assignment with any pattern of blanks, return statement with the call at
@@ -689,6 +768,28 @@ theorem held_receiver_bound_witness :
     the same pointer keeps the copy taken when it was made -/
 example : methodWrapperCall E getRecv (fun _ _ => []) false (heapWith 1) (heapWith 2) (.var (.ptr (.int 0)) (.ptr (.int 0))) [] = [.int 1] ∧
     methodWrapperCall E getRecv (fun _ _ => []) true (heapWith 1) (heapWith 2) (.held (.ptr (.int 0))) [] = [.ptr (.int 0)] := ⟨rfl, rfl⟩
+
+/-! ### method values of host values -/
+
+/-- **A method value of a HOST value binds its receiver when it is evaluated** (`hostMethodBindsRecv`, `bindRecvCopies`,
+    regenerated; repair 5c3ec57 of F07-15) — `mv := c.M`, `defer c.M(…)`, `go c.M(…)` on a value of a host type: for a value or
+    pointer receiver, every state of the heap and of the variable at the two moments, the call runs with the receiver Go
+    prescribes for a method value, the one reached when it was EVALUATED — the same statement as for the methods of script
+    types (`method_wrapper_binds_receiver`). -/
+theorem host_method_value_binds_receiver (wantsPtr : Bool) (hMade hNow : Nat → Rep) (made now : Rep) :
+    hostMethodRecvY E wantsPtr hMade hNow made now = recvSpec wantsPtr hMade hNow (.var made now) := rfl
+
+theorem host_method_value_generated (wantsPtr : Bool) (hMade hNow : Nat → Rep) (made now : Rep) :
+    hostMethodRecvY Generated.C07.facts wantsPtr hMade hNow made now = bindRecvY hMade wantsPtr made := by
+  rw [facts_tie]; rfl
+
+/-- regression F07-15 — `c := b1; defer c.WriteString("d"); c = b2` wrote to b2, `d := time.Duration(5); s := d.String; d = 7; s()`
+    gave 7ns: reflect read the receiver from the variable when the method value was called -/
+theorem host_recv_rebound_regression :
+    hostMethodRecvY { E with hostMethodBindsRecv := false } false noHeap noHeap (.int 5) (.int 7) = .int 7 ∧
+    hostMethodRecvY E false noHeap noHeap (.int 5) (.int 7) = .int 5 ∧
+    hostMethodRecvY { E with hostMethodBindsRecv := false } false (heapWith 1) (heapWith 2) (.ptr (.int 0)) (.ptr (.int 0)) = .int 2 ∧
+    hostMethodRecvY E false (heapWith 1) (heapWith 2) (.ptr (.int 0)) (.ptr (.int 0)) = .int 1 := ⟨rfl, rfl, rfl, rfl⟩
 
 /-! ### one wrapper value, nested invocations -/
 
